@@ -15,7 +15,8 @@ func init() {
 	hset hmset hget hgetall hdel hsetnx hexists hlen rpush lpush lrange llen lpop rpop sadd srem smembers scard zadd zrange zrangebyscore
 	zrem zcard zscore zincrby pexpire pexpireat expire expireat pttl ttl persist restore xadd xgroup xsetid xclaim xrange xlen flushall flushdb
 	dbsize eval evalsha script keys scan command cluster asking client config replconf publish readonly function rename
-	getset incrbyfloat setrange bitop sunionstore lset ltrim linsert pfadd copy move swapdb hincrby spop xdel xtrim xautoclaim xack`) {
+	getset incrbyfloat setrange bitop sunionstore lset ltrim linsert pfadd copy move swapdb hincrby spop xdel xtrim xautoclaim xack
+	modq.set modq.mset`) {
 		knownCmds[n] = true
 	}
 }
@@ -103,6 +104,23 @@ func (s *Server) execute(c *conn, name string, a [][]byte) interface{} {
 		}
 		return Simple("OK")
 	case "command":
+		// COMMAND GETKEYS <cmd> <args...>: the keys of a command of a loaded module (modq.set key value / modq.mset key
+		// value [key value ...] - what a static table cannot know), an error for anything this server does not know
+		if len(a) >= 2 && strings.EqualFold(string(a[0]), "getkeys") {
+			cn := strings.ToLower(string(a[1]))
+			if !knownCmds[cn] {
+				return ErrRep("ERR Invalid command specified")
+			}
+			ks := DefaultKeys(cn, a[2:])
+			if len(ks) == 0 {
+				return ErrRep("ERR The command has no key arguments")
+			}
+			out := []interface{}{}
+			for _, k := range ks {
+				out = append(out, cp(k))
+			}
+			return out
+		}
 		return []interface{}{}
 	case "cluster":
 		if s.Cluster == nil {
@@ -168,6 +186,12 @@ func (s *Server) execute(c *conn, name string, a [][]byte) interface{} {
 		return Simple("OK")
 	case "set":
 		return s.cmdSet(d, a)
+	case "modq.set":
+		if len(a) != 2 {
+			return argErr
+		}
+		d[string(a[0])] = &Value{Type: "string", Str: cp(a[1])}
+		return Simple("OK")
 	case "setnx":
 		if len(a) != 2 {
 			return argErr
@@ -215,7 +239,7 @@ func (s *Server) execute(c *conn, name string, a [][]byte) interface{} {
 			return errWrongType
 		}
 		return v.Str
-	case "mset":
+	case "mset", "modq.mset":
 		if len(a) == 0 || len(a)%2 != 0 {
 			return argErr
 		}
